@@ -14,7 +14,7 @@ from __future__ import annotations
 
 import ast
 
-from ..match import bind_args, calls, expected_term, returns, term_of
+from ..match import bind_args, calls, expected_term, returns, term_of, within_vocabulary
 from ..model import own_nodes, parents
 from ..terms import Canon, Scope, show
 
@@ -154,7 +154,28 @@ def run(repo, chk, tier):
         if v0 is not None and term_of(fn, v0, inline=False) == dispatch:
             vals = lambda dname: f'[{dname}.get((r, f), 0) for r in {ranked}]'
             wants_inl.append(X(f'{rel}[f] - {alpha} * {k0}({vals(red)}) + {beta} * {k0}({vals(relat)})'))
-    if helper is not None and obj in wants_by_dict and obj in wants_inl:
+    # the objective decided per aggregation strategy: one round is evaluated with the strategy fixed (closures and helpers evaluated, dispatch
+    # tables looked up, conditional expressions decided), and must then be relevance - alpha * AGG(redundancy) + beta * AGG(relation) with AGG the
+    # aggregate that strategy names
+    per_strategy = objective_per_strategy(fn, wl, env0, strategy, rel, ranked, cv, _rep)
+    vals_src = lambda dname: f'[{dname}.get((r, f), 0) for r in {ranked}]'
+    decided = None
+    if per_strategy is not None:
+        decided = []
+        for sval, aggs in (('median', ('numpy.median',)), ('mean', ('numpy.mean',)), ('some-other-strategy', ('sum', 'numpy.sum'))):
+            got = per_strategy.get(sval)
+            want_s = [X(f'{rel}[f] - {alpha} * {ag}({vals_src(red)}) + {beta} * {ag}({vals_src(relat)})') for ag in aggs]
+            if got is None:
+                decided = None
+                break
+            decided.append((sval, got, want_s))
+    if decided is not None and all(got in want_s for _, got, want_s in decided):
+        chk.ok('C17.4', 'R15', fn.site(wl), '; '.join(f'{sv}: {show(g)[:60]}' for sv, g, _ in decided)[:200], "objective = relevance - alpha * agg(redundancy) + beta * agg(relation) with agg = median / mean / sum as the strategy names (decided per strategy)")
+        chk.ok('C17.5', 'R7', fn.site(wl), 'aggregation evaluated as part of the objective', "the aggregate ranges over all ranked features, missing pairs count 0, 'median' -> np.median, 'mean' -> np.mean, otherwise sum")
+    elif decided is not None and all(got in want_s or within_vocabulary(got, want_s) for _, got, want_s in decided):
+        sv, got, want_s = next((sv, g, w) for sv, g, w in decided if g not in w)
+        chk.bad('C17.4', 'R15', fn.site(wl), f'strategy {sv!r}: {show(got)[:180]}', f'with strategy {sv!r} the objective must be {show(want_s[0])[:160]}; found {show(got)[:200]}')
+    elif helper is not None and obj in wants_by_dict and obj in wants_inl:
         chk.ok('C17.4', 'R15', fn.site(wl), show(obj)[:160], 'objective = relevance - alpha * agg(redundancy) + beta * agg(relation), aggregation over all ranked features written out')
     elif obj in wants:
         chk.ok('C17.4', 'R15', fn.site(wl), show(obj)[:160], 'objective = relevance - alpha * agg(redundancy) + beta * agg(relation)')
@@ -174,6 +195,37 @@ def run(repo, chk, tier):
                      E(f"pandas.DataFrame({{'Feature': {ranked}, '3MR_Ranking': numpy.arange(1, len({ranked}) + 1)}})"))
         chk.expect(okk, 'C17.6', 'R15', fn.site(rets[0]), ast.unparse(rets[0]), 'ranks 1..n in list order', f'the result must pair the ranked list with ranks range(1, n+1); found {show(rt)[:160]}')
     call_site(repo, chk, fn)
+
+
+def objective_per_strategy(fn, wl, env0, strategy, rel, ranked, cv, _rep):
+    """{strategy value: objective term of one candidate (candidate = role marker)} from evaluating one greedy round with the strategy fixed; None when a
+    round cannot be evaluated that way"""
+    from ..match import run_paths
+    from ..terms import pattern, unify, walk_term, alpha_norm
+    m = fn.module
+    assigned = {x.id for x in ast.walk(wl) if isinstance(x, ast.Name) and isinstance(x.ctx, ast.Store)}
+    # bindings made before the rounds that depend on the strategy (e.g. the aggregate chosen once)
+    env = {k: v for k, v in env0.items() if v is not None and k not in assigned and k != strategy and any(isinstance(x, ast.Name) and x.id == strategy for x in ast.walk(v))}
+    out = {}
+    for sval in ('median', 'mean', 'some-other-strategy'):
+        try:
+            ps = run_paths(fn, lambda e: isinstance(e, ast.Name) and e.id == strategy, sval, max_forks=3, body=wl.body, env=dict(env), eval_closures=True)
+        except Exception:
+            return None
+        if ps is None or len(ps) != 1 or ps[0][1].unknown is not None:
+            return None
+        res = ps[0][1]
+        apps = [c for c in res.calls if isinstance(c['call'].func, ast.Attribute) and c['call'].func.attr == 'append' and isinstance(c['call'].func.value, ast.Name) and c['call'].func.value.id == ranked]
+        if len(apps) != 1:
+            return None
+        pt = term_of(fn, apps[0]['call'].args[0], inline=False)
+        b_ = unify(pattern(m, '__argmax__(GEN, start=S, strict=ST, rel=RL, tracked=TR, unset=UN)', ['GEN', 'S', 'ST', 'RL', 'TR', 'UN']), pt)
+        if b_ is None or b_['GEN'][0] != 'genexp' or len(b_['GEN'][2]) != 1:
+            return None
+        allcv = sorted({x for x in walk_term(pt) if isinstance(x, tuple) and len(x) == 3 and x[0] == 'cvar' and isinstance(x[1], int)}, key=lambda x: x[1])
+        cand_var = next((x[2] for x in walk_term(b_['GEN'][1]) if isinstance(x, tuple) and len(x) == 3 and x[0] == 'sub' and x[1] == ('name', rel) and isinstance(x[2], tuple) and x[2][:1] == ('cvar',)), allcv[0] if allcv else ('cvar', 0, 0))
+        out[sval] = alpha_norm(_rep(b_['GEN'][1], cand_var, cv))
+    return out
 
 
 def aggregator(chk, fn, helper, ranked, red, relat, strategy, E):
